@@ -17,20 +17,34 @@ def serve(arg):
         _ = pub.Fe[56].nuclear_spin            # through the other property of the same loader
     elif variant == 3:
         _ = pub.Fe.ion[2].neutron              # through an ion
-    if arg.get("private"):
+    def private():
         t = core.PeriodicTable("T1")
         mass.init(t)
         density.init(t)
         nsf.init(t)
-        tabs["T1"] = t
-    if variant:
+        return t
+    late = variant in (4, 5)        # the private table is made only after the public one has been read
+    if arg.get("private") and not late:
+        tabs["T1"] = private()
+    if variant in (1, 2, 3):
         # ... and then an ion, an isotope ion and a probe before the table is read
         _ = (pub.Fe.ion[2].neutron, pub.Ni[58].ion[2].neutron, hasattr(pub.Co.ion[2], "neutron"))
     out = []
-    for T, t in sorted(tabs.items()):
+    order = sorted(tabs) if not late else ["public"] + (["T1"] if arg.get("private") else [])
+    for T in order:
+        if T not in tabs:
+            tabs[T] = private()
+        t = tabs[T]
         for z in arg["zs"]:
             el = t[z]
-            for at, a in [(el, 0)] + [(iso, iso.isotope) for iso in el]:
+            atoms = [(el, 0)] + [(iso, iso.isotope) for iso in el]
+            if variant in (4, 5):
+                # the first touch of neutron data in this interpreter is the read (or a hasattr probe) of an isotope of the
+                # first element asked about: isotopes first, the element last
+                atoms = atoms[1:] + atoms[:1]
+                if variant == 5 and len(atoms) > 1:
+                    hasattr(atoms[0][0], "neutron")
+            for at, a in atoms:
                 ev = {"ev": "serve", "id": "serve:%s:%d:%d" % (T, z, a), "T": T, "z": z, "a": a}
                 try:
                     n = at.neutron
